@@ -10,7 +10,7 @@ dir=$(cd "$1" && pwd); shift
 tag=$(basename "$dir")_$$
 wt=/tmp/seedrun_wt_$tag; vr=/tmp/seedrun_vr_$tag
 patch=$dir/patch.diff
-[ -f "$dir/patch_rebased.diff" ] && patch=$dir/patch_rebased.diff
+for f in "$dir"/patch_rebased*.diff; do [ -f "$f" ] && patch=$f; done
 git -C /repo worktree add -q "$wt" HEAD || exit 2
 if ! git -C "$wt" apply "$patch"; then echo "$(basename $dir) PATCH-DOES-NOT-APPLY"; git -C /repo worktree remove --force "$wt"; exit 2; fi
 mkdir -p "$vr"
